@@ -1,1 +1,59 @@
-//! Hooks for property C45.
+//! Hooks for property C45: GLV composition guards and per-market balance caps.
+use std::collections::BTreeSet;
+
+use anchor_lang::prelude::*;
+
+use crate::states::{Glv, Market};
+
+/// `Glv::unchecked_init` with the GLV token PDA derived from `(store, index)`.
+pub fn glv_init(
+    glv: &mut Glv,
+    index: u16,
+    store: &Pubkey,
+    long_token: &Pubkey,
+    short_token: &Pubkey,
+    market_tokens: &BTreeSet<Pubkey>,
+) -> Result<Pubkey> {
+    let glv_token = Glv::find_glv_token_pda(store, index, &crate::ID).0;
+    glv.unchecked_init(255, index, store, &glv_token, long_token, short_token, market_tokens)?;
+    Ok(glv_token)
+}
+
+/// `Glv::process_and_validate_markets_for_init`.
+pub fn glv_validate_markets_for_init<'info>(
+    markets: &'info [AccountInfo<'info>],
+    store: &Pubkey,
+) -> Result<(Pubkey, Pubkey, BTreeSet<Pubkey>)> {
+    Glv::process_and_validate_markets_for_init(markets, store)
+}
+
+/// `Glv::insert_market`.
+pub fn glv_insert_market(glv: &mut Glv, store: &Pubkey, market: &Market) -> Result<()> {
+    glv.insert_market(store, market)
+}
+
+/// `Glv::update_market_config`.
+pub fn glv_update_market_config(
+    glv: &mut Glv,
+    market_token: &Pubkey,
+    max_amount: Option<u64>,
+    max_value: Option<u128>,
+) -> Result<()> {
+    glv.update_market_config(market_token, max_amount, max_value)
+}
+
+/// `Glv::validate_market_token_balance`.
+pub fn glv_validate_market_token_balance(
+    glv: &Glv,
+    market_token: &Pubkey,
+    new_balance: u64,
+    market_pool_value: &i128,
+    market_token_supply: &u128,
+) -> Result<()> {
+    glv.validate_market_token_balance(market_token, new_balance, market_pool_value, market_token_supply)
+}
+
+/// `Glv::update_market_token_balance`.
+pub fn glv_update_market_token_balance(glv: &mut Glv, market_token: &Pubkey, new_balance: u64) -> Result<()> {
+    glv.update_market_token_balance(market_token, new_balance)
+}
